@@ -14,6 +14,8 @@ Tie: bit-exact trace correspondence + ascent monitor on the implementation's own
 import MTProofs.AscentTie
 import MTProofs.Congr
 import MTProps.C02
+import MTProofs.Invariants
+import MTProofs.Control
 
 namespace MTProps.C01
 open MT MTProofs Finset
@@ -330,6 +332,78 @@ theorem model_sweep_ascent_directed (hv : ViewOK nv s.u.R) (hsh : DirShape K nv 
   exact hmain
 
 end model
+
+/-! ### every pair of consecutive iterations of a realization -/
+
+section trajectory
+variable (assort : Bool) (K : Nat) (nv : NetView)
+
+/-- the step from state `s` is free of both admissible exceptions: every observed edge has rate > ε in
+each sub-step, and no entry is truncated by any of the three updates -/
+structure ExceptionFree (s : State ℝ) : Prop where
+  r0 : RatesAbove assort K nv.nL s.u.R nv.out (uA s) (vA s) (wView assort false s.w)
+  r1 : RatesAbove assort K nv.nL s.u.R nv.out
+    (u1 assort K nv.nL s.u.R nv.uList nv.vList nv.out (wView assort false s.w) (uA s) (vA s)) (vA s)
+    (wView assort false s.w)
+  r2 : RatesAbove assort K nv.nL s.u.R nv.out
+    (u1 assort K nv.nL s.u.R nv.uList nv.vList nv.out (wView assort false s.w) (uA s) (vA s))
+    (v1 assort K nv.nL s.u.R nv.uList nv.vList nv.out nv.inn (wView assort false s.w) (wView assort true s.w) (uA s) (vA s))
+    (wView assort false s.w)
+  r3 : RatesAbove assort K nv.nL s.u.R nv.out
+    (u1 assort K nv.nL s.u.R nv.uList nv.vList nv.out (wView assort false s.w) (uA s) (vA s))
+    (v1 assort K nv.nL s.u.R nv.uList nv.vList nv.out nv.inn (wView assort false s.w) (wView assort true s.w) (uA s) (vA s))
+    (w1 assort K nv.nL s.u.R nv.uList nv.vList nv.out nv.inn (wView assort false s.w) (wView assort true s.w) (uA s) (vA s))
+  snapU : ∀ i k, i < s.u.R → k < K →
+    maskV assort K nv.nL nv.uList nv.vList (wView assort false s.w) (vA s) (uA s) i k →
+    ¬ |rawV assort K nv.nL s.u.R nv.vList nv.out (wView assort false s.w) (vA s) (uA s) i k| < ε
+  snapV : ∀ j k, j < s.u.R → k < K →
+    maskV assort K nv.nL nv.vList nv.uList (wView assort true s.w)
+      (u1 assort K nv.nL s.u.R nv.uList nv.vList nv.out (wView assort false s.w) (uA s) (vA s)) (vA s) j k →
+    ¬ |rawV assort K nv.nL s.u.R nv.uList nv.inn (wView assort true s.w)
+      (u1 assort K nv.nL s.u.R nv.uList nv.vList nv.out (wView assort false s.w) (uA s) (vA s)) (vA s) j k| < ε
+  snapW : ∀ k q a, k < K → q < K → a < nv.nL →
+    maskW nv.uList nv.vList
+      (u1 assort K nv.nL s.u.R nv.uList nv.vList nv.out (wView assort false s.w) (uA s) (vA s))
+      (v1 assort K nv.nL s.u.R nv.uList nv.vList nv.out nv.inn (wView assort false s.w) (wView assort true s.w) (uA s) (vA s))
+      (wView assort false s.w) k q a →
+    ¬ |rawW assort K s.u.R nv.uList nv.vList nv.out
+      (u1 assort K nv.nL s.u.R nv.uList nv.vList nv.out (wView assort false s.w) (uA s) (vA s))
+      (v1 assort K nv.nL s.u.R nv.uList nv.vList nv.out nv.inn (wView assort false s.w) (wView assort true s.w) (uA s) (vA s))
+      (wView assort false s.w) a k q| < ε
+
+/-- a well-formed directed state (C03's invariant) provides what the ascent theorem needs -/
+theorem stateOK_of_wf (s : State ℝ) (hd : nv.directed = true) (h : WFState assort K nv s) :
+    DirShape K nv s ∧
+    StateOK s.u.R nv.uList nv.vList (wView assort false s.w) (wView assort true s.w) (uA s) (vA s) := by
+  obtain ⟨hvR, hvC, hvT⟩ := h.vShape hd
+  refine ⟨⟨hvR, h.wR, h.wT⟩, ⟨fun i k => h.uNonneg i k 0, fun j q => h.vNonneg j q 0,
+    fun k q a => wView_nonneg assort false s.w h.wNonneg k q a,
+    fun k q a => wView_nonneg assort true s.w h.wNonneg k q a, ?_, ?_⟩⟩
+  · intro i k hi hn
+    by_cases hk : k < K
+    · exact h.uZero i k hi hk hn
+    · exact get_col_oob s.u h.uSized h.uT hi (by rw [h.uC]; omega)
+  · intro j q hj hn
+    by_cases hq : q < K
+    · exact h.vZero hd j q hj hq hn
+    · exact get_col_oob s.v (h.vSized hd) hvT (by rw [hvR]; exact hj) (by rw [hvC]; omega)
+
+/-- **C01 along a realization**: for every pair of consecutive iterations `n → n+1` of a directed
+variant whose step is free of the two admissible exceptions, the likelihood of the factors does not
+decrease; the invariant of C03 supplies everything else -/
+theorem realization_ascent (s0 : State ℝ) (hv : ViewOK nv s0.u.R) (hwf0 : WFState assort K nv s0) (n : Nat)
+    (hfree : ExceptionFree assort K nv (traj assort K nv s0 n)) :
+    stateLik assort K nv (traj assort K nv s0 n) ≤ stateLik assort K nv (traj assort K nv s0 (n + 1)) := by
+  obtain ⟨hwfn, hRn⟩ := iterate_wf assort K nv s0 n hv.wf hwf0
+  have hvn : ViewOK nv (traj assort K nv s0 n).u.R := by
+    show ViewOK nv ((sweep assort K nv)^[n] s0).u.R
+    rw [hRn]; exact hv
+  obtain ⟨hsh, hok⟩ := stateOK_of_wf assort K nv _ hv.dir hwfn
+  rw [traj_succ]
+  exact model_sweep_ascent_directed assort K nv _ hvn hsh hok hfree.r0 hfree.r1 hfree.r2 hfree.r3
+    hfree.snapU hfree.snapV hfree.snapW
+
+end trajectory
 
 /-! ### every directed network built from an edge list satisfies `ViewOK` -/
 
